@@ -522,8 +522,48 @@ func genC14(t *rapid.T) c14Case {
 }
 
 func init() {
+	vRegister("C13", "c13.altcomment", checkC13Alt)
 	vRegister("C13", "c13.random", checkC13)
 	vRegister("C14", "c14.random", checkC14)
+}
+
+// another comment character (configuration file, [ParserConfig] CommentChar=59): '#' is then an ordinary character,
+// names that begin with it are names, ';' begins comments and notes
+
+type c13AltCase struct {
+	Cmd int `json:"cmd"`
+}
+
+func checkC13Alt(c c13AltCase, ctx *vCtx) *vFailure {
+	cfg := vWriteFile("c13-alt.conf", "[ParserConfig]\nCommentChar=59\n")
+	bp := vWriteFile("c13-alt-book.yaml", "; a comment under the other character\n#1 special:\n  #salt: 2\n  x: 1\n; another comment\nplain:\n  #1 special: 3\n  ; a note\n  y: 0.5\n")
+	lp := vWriteFile("c13-alt-log.yaml", "2021/01/01:\n  #1 special: 2\n  ; weight: 81\n  plain: 1\n2021/01/02:\n  #salt: 4\n")
+	cmd := [][]string{{"csv", "database"}, {"csv", "database-resolved"}, {"csv", "log"}}[c.Cmd%3]
+	want := [][][]string{
+		{{"#1 special", "#salt", "2.00"}, {"#1 special", "x", "1.00"}, {"plain", "#1 special", "3.00"}, {"plain", "y", "0.50"}},
+		{{"#1 special", "#salt", "2.00"}, {"#1 special", "x", "1.00"}, {"plain", "#salt", "6.00"}, {"plain", "x", "3.00"}, {"plain", "y", "0.50"}},
+		{{"2021-01-01", "#1 special", "2.000"}, {"2021-01-01", "plain", "1.000"}, {"2021-01-02", "#salt", "4.000"}},
+	}[c.Cmd%3]
+	r := vRunApp(vInvocation{Args: append([]string{"--config", cfg, "--today", vToday, "-d", bp, "-l", lp}, cmd...)})
+	ctx.Run(1)
+	ctx.NonTrivial(true)
+	if r.Failed {
+		return vFailf("%v with ';' as comment character fails: %s", cmd, r.Err)
+	}
+	rows, err := vReadCSV(r.Stdout)
+	if err != nil {
+		return vFailf("%v with ';' as comment character: not valid RFC 4180: %v", cmd, err)
+	}
+	if fmt.Sprintf("%q", rows) != fmt.Sprintf("%q", want) {
+		return vFailf("%v with ';' as comment character (names that begin with '#' are names): rows %q, expected %q", cmd, rows, want)
+	}
+	return nil
+}
+
+func TestVerifC13Alt(t *testing.T) {
+	vEnum(t, "C13", "c13.altcomment",
+		"the three exports under a configuration file that makes ';' the comment character, on a book and a log whose names begin with '#': the rows by construction",
+		"3 commands", 3, func(i int) c13AltCase { return c13AltCase{Cmd: i} }, checkC13Alt)
 }
 
 func TestVerifC13Random(t *testing.T) {
